@@ -54,6 +54,10 @@ func IdentRef(s *sim.Src, name string, fancy int) string {
 			name = strings.ToLower(name)
 		}
 	}
+	if fancy >= 5 && s.Chance(1, 12, "refstring") {
+		// a single-quoted string in an indexed-column list: SQLite reads it as a column name
+		return "'" + strings.ReplaceAll(name, "'", "''") + "'"
+	}
 	return identStyled(s, name, fancy)
 }
 
